@@ -9,6 +9,8 @@ connection lost}.  A reference model predicts, after every step, the queue lengt
 of every callRemote Deferred; the real objects must agree after every step and at the end (where the
 connection is lost if it was not already).
 """
+import contextlib
+import sys
 from typing import List
 
 from twisted.internet.defer import Deferred
@@ -28,12 +30,13 @@ ENCODED = ["twisted.protocols.amp:BoxDispatcher._sendBoxCommand", "twisted.proto
            "twisted.protocols.amp:Command._doCommand", "twisted.protocols.amp:CommandLocator._wrapWithSerialization",
            "twisted.protocols.amp:BinaryBoxProtocol.connectionLost", "twisted.protocols.amp:BinaryBoxProtocol.sendBox",
            "twisted.protocols.amp:AMP.connectionLost", "twisted.protocols.amp:QuitBox._sendTo"]
-BOUNDS = {"quick": {"len": 6, "calls": 3, "bkinds": 2}, "thorough": {"len": 7, "calls": 3, "bkinds": 4}}
+BOUNDS = {"quick": {"len": 6, "calls": 3, "bkinds": 2}, "thorough": {"len": 8, "calls": 3, "bkinds": 4}}
 B = {}
 BOUNDS_TEXT = ("every schedule of <= len steps with <= calls callRemote invocations in total; the first call is "
                "A's (A and B are the same class: symmetry); A's commands have all 4 responder behaviours (answer now, "
                "answer later or never, declared error, undeclared error), B's the first `bkinds` of them; a step "
-               "that is not enabled (empty queue, nothing pending, call budget used) ends the schedule")
+               "that is not enabled (empty queue, nothing pending, call budget used; op code 14 is never enabled) "
+               "ends the schedule, so the list of exactly `len` step codes covers all shorter schedules too")
 OUTSIDE = ["byte-level disconnect positions and partial boxes (box-level delivery only; the byte parser is C30)",
            "more than `calls` commands / longer schedules; responders failing later with an UNdeclared error",
            "symbolic argument values (boxes are concrete: each call carries its own distinct integer tag)",
@@ -41,7 +44,9 @@ OUTSIDE = ["byte-level disconnect positions and partial boxes (box-level deliver
            "callbacks (unhandledError path)"]
 ASSUMPTIONS = ["transports are recording fakes: write() queues one serialized box, loseConnection() only sets a flag "
                "(the harness issues connectionLost on both sides as a schedule step or at the end)",
-               "amp._log is replaced by a Logger with a no-op observer (log formatting is not under test)"]
+               "amp._log is replaced by a Logger with a no-op observer (log formatting is not under test)",
+               "the AMP calls of one step run with CrossHair's tracer suspended: all their inputs are concrete "
+               "(the symbolic step value has been matched against a concrete op code by the solver first)"]
 EXPLANATION = ("two real AMP peers over in-memory box queues driven by a symbolic schedule, compared step by step "
                "with a reference model of requests, answers, errors and connection loss")
 
@@ -139,6 +144,7 @@ class _World:
         self.mpend = []                # ids in creation order, parallel to self.pending
         self.done = {}                 # id -> expected outcome
         self.caller = []               # id -> side
+        self.mclose = {"A": False, "B": False}   # side asked its transport to close (fatal error sent)
 
     def other(self, n):
         return "B" if n == "A" else "A"
@@ -183,6 +189,7 @@ class _World:
                 self.mq[to].append(("decl", cid))
             else:
                 self.mq[to].append(("unk", cid))
+                self.mclose[to] = True      # an undeclared error is fatal: QuitBox, then loseConnection()
         elif ent[0] == "ans":
             self.done[ent[1]] = ("ok", 100 + ent[1])
         elif ent[0] == "decl":
@@ -216,6 +223,8 @@ class _World:
         """real state == model state"""
         for n in ("A", "B"):
             if len(self.tr[n].queue) != len(self.mq[n]):
+                return False
+            if self.tr[n].closing != self.mclose[n]:
                 return False
         if len(self.pending) != len(self.mpend):
             return False
@@ -253,50 +262,63 @@ def _enabled(w, ncalls):
     return en
 
 
+def _untraced():
+    """Everything the AMP objects see is concrete (the step chosen by the solver has been matched against
+    a concrete op code before it is used), so the real code runs with CrossHair's tracer suspended:
+    same semantics, ~100x cheaper per path.  The schedule itself (list length, each `o == code`) is
+    decided by the solver."""
+    tr = sys.modules.get("crosshair.tracers")
+    if tr is None:
+        return contextlib.nullcontext()
+    return tr.NoTracing()
+
+
+def _step(w, sel):
+    if sel < D_AB:
+        side = "A" if sel < B_CALL else "B"
+        w.call(side, sel - (A_CALL if sel < B_CALL else B_CALL))
+    elif sel == D_AB:
+        w.deliver("A")
+    elif sel == D_BA:
+        w.deliver("B")
+    elif sel == F_OLD_OK:
+        w.fire(0, True)
+    elif sel == F_OLD_ERR:
+        w.fire(0, False)
+    elif sel == F_NEW_OK:
+        w.fire(len(w.pending) - 1, True)
+    else:
+        w.lose()
+    return w.agree()
+
+
 def _run(ops):
-    w = _World()
+    with _untraced():
+        w = _World()
     ncalls = 0
     for o in ops:
+        with _untraced():
+            en = _enabled(w, ncalls)
         sel = None
-        for code in _enabled(w, ncalls):
-            if o == code:
+        for code in en:
+            if o == code:        # the solver picks the step
                 sel = code
                 break
         if sel is None:
             break               # a step that is not enabled ends the schedule
         if sel < D_AB:
-            side = "A" if sel < B_CALL else "B"
-            w.call(side, sel - (A_CALL if sel < B_CALL else B_CALL))
             ncalls += 1
-        elif sel == D_AB:
-            w.deliver("A")
-        elif sel == D_BA:
-            w.deliver("B")
-        elif sel == F_OLD_OK:
-            w.fire(0, True)
-        elif sel == F_OLD_ERR:
-            w.fire(0, False)
-        elif sel == F_NEW_OK:
-            w.fire(len(w.pending) - 1, True)
-        else:
-            w.lose()
-        if not w.agree():
+        with _untraced():
+            ok = _step(w, sel)
+        if not ok:
             return False, w
     return True, w
 
 
-def schedule(ops: List[int]) -> bool:
-    """
-    pre: len(ops) <= B['len'] and all(0 <= o <= 13 for o in ops)
-    post: _
-    """
-    ok, w = _run(ops)
-    if not ok:
-        return False
+def _final(w):
     # whatever is still unanswered fails with the connection-loss reason, exactly once
     if not w.lost:
         w.lose()
-    cover()
     if not w.agree():
         return False
     for cid in range(len(w.res)):
@@ -310,6 +332,19 @@ def schedule(ops: List[int]) -> bool:
     w.call("A", NOW)
     w.call("B", LATER)
     return w.agree() and w.res[-1] == [("lost",)] and w.res[-2] == [("lost",)]
+
+
+def schedule(ops: List[int]) -> bool:
+    """
+    pre: len(ops) == B['len'] and all(0 <= o <= 14 for o in ops)
+    post: _
+    """
+    ok, w = _run(ops)
+    if not ok:
+        return False
+    cover()
+    with _untraced():
+        return _final(w)
 
 
 class _Abs:
@@ -360,7 +395,7 @@ def _prefix_counts(tier):
 
     def rec(w, depth, prefix):
         if len(prefix) >= 3:
-            key = prefix[0] * 196 + prefix[1] * 14 + prefix[2]
+            key = prefix[0] * 225 + prefix[1] * 15 + prefix[2]
             cnt[key] = cnt.get(key, 0) + 1
         if depth == B['len']:
             return
@@ -373,23 +408,24 @@ def _prefix_counts(tier):
 
 
 def _shards(tier):
-    # complete partition of the inputs: schedules of < 3 steps, and contiguous ranges of the first three
-    # steps read as a base-14 number (ranges cut so that each holds about the same number of schedules)
+    # complete partition of the inputs: contiguous ranges of the first three steps read as a base-15
+    # number, cut so that each range holds about the same number of schedules
     cnt = _prefix_counts(tier)
-    target = 650 if tier == "quick" else 4500
-    sh = [("len(ops) <= 2",)]
+    target = 450 if tier == "quick" else 6000
+    sh = []
     lo = 0
     acc = 0
-    for key in range(14 ** 3):
+    for key in range(15 ** 3):
         acc += cnt.get(key, 0)
-        if acc >= target or key == 14 ** 3 - 1:
-            sh.append(("len(ops) >= 3", "%d <= ops[0] * 196 + ops[1] * 14 + ops[2] <= %d" % (lo, key)))
+        if acc >= target or key == 15 ** 3 - 1:
+            sh.append(("%d <= ops[0] * 225 + ops[1] * 15 + ops[2] <= %d" % (lo, key),))
             lo = key + 1
             acc = 0
     return sh
 
 
-HARNESSES = [H(schedule, shards=_shards, timeout={"quick": 60, "thorough": 1500})]
+HARNESSES = [H(schedule, shards=_shards, timeout={"quick": 100, "thorough": 1500})]
 
-VECTORS = {"schedule": [([],), ([0, 8, 9],), ([1, 0, 8, 8, 9, 10, 9],), ([2, 8, 9],), ([3, 8, 9],), ([1, 8, 13, 10],),
-                        ([0, 4, 8, 9, 9, 8],), ([1, 1, 8, 8, 12, 9],), ([0, 13, 0],), ([1, 5, 9, 8, 11, 10],)]}
+VECTORS = {"schedule": [([14],), ([0, 8, 9, 14],), ([1, 0, 8, 8, 9, 10, 9],), ([2, 8, 9, 14],), ([3, 8, 9, 14],),
+                        ([1, 8, 13, 10, 14],), ([0, 4, 8, 9, 9, 8],), ([1, 1, 8, 8, 12, 9],), ([0, 13, 0, 14],),
+                        ([1, 5, 9, 8, 11, 10],)]}
